@@ -843,8 +843,19 @@ fn run_case(sched: &Arc<Sched>, case: &Value, idx: usize) {
                 sched.hi(r#""e":"setup","wakers":[7],"fillers":0"#.to_string());
             }
             let sc = sched.clone();
+            let cecho = case["cecho"].as_bool().unwrap_or(false);
+            let sh2 = sh.clone();
             let fwd = Fwd::new(move |v: i64| {
                 sc.hi(format!(r#""e":"fwd","v":{}"#, v));
+                if cecho && v < 1000 {
+                    // the receiver answers through the same channel, from inside the forwarding loop
+                    let ch = sh2.channel.lock().unwrap().clone();
+                    if let Some(ch) = ch {
+                        sc.hi(format!(r#""e":"send_begin","v":{}"#, v + 1000));
+                        let r = ch.send(v + 1000);
+                        sc.hi(format!(r#""e":"send_end","v":{},"res":{}"#, v + 1000, r));
+                    }
+                }
                 // user code: its return is a scheduling point
                 sc.yield_want(Want::Step);
             });
